@@ -920,7 +920,7 @@ func runC16(e *Env) error {
 			cp(0), dp(0, 8), dp(1, 9), dp(1, 8), dp(0, 9), dp(0, 3), dp(1, 9), cp(1), dp(2, 10), dp(1, 11), dp(1, 10), cp(2), dp(3, 11), dp(2, 8), dp(0, 10)}})
 		add(CaseSpec{Kind: "deposit_witness_siblings", Stream: "deposit", Init: gen, NPub: 11, Fixed: []OpSpec{
 			cp(0), cp(0), dp(1, 8), dp(2, 8), dp(0, 9), dp(2, 10), dp(1, 10), dp(0, 10), dp(0, 8), cp(0), dp(3, 8), dp(3, 7)}})
-		nd := e.N(110, 3000)
+		nd := e.N(90, 3000)
 		for c := 0; c < nd; c++ {
 			add(CaseSpec{Kind: "deposit_random", Stream: "deposit", Seed: r.U64(), Init: gen, NPub: nGenesis + 3 + r.Intn(5), NOps: 6 + r.Intn(25), MaxVars: 2 + r.Intn(5)})
 		}
@@ -1011,7 +1011,7 @@ func runC16(e *Env) error {
 			if st.Msg != "" {
 				js["msg"] = st.Msg
 			}
-			if len(rec.Steps) <= 12 {
+			if len(rec.Steps) <= 16 {
 				js["tables_after"] = tabs
 			}
 			jsteps = append(jsteps, js)
